@@ -148,7 +148,7 @@ func (e *Exec) zero(t types.Type) Value {
 		if u.Kind() == types.UnsafePointer {
 			return PtrV{}
 		}
-		if u.Kind() == types.UntypedNil {
+		if u.Kind() == types.UntypedNil || u.Kind() == types.Invalid {
 			return nil
 		}
 		panic(unsupported("zero of basic type " + t.String()))
